@@ -395,6 +395,12 @@ func mergeContracts(dst, src *Contract) {
 	dst.UsesAtRet = append(dst.UsesAtRet, src.UsesAtRet...)
 	dst.Ghosts = append(dst.Ghosts, src.Ghosts...)
 	dst.Calls = append(dst.Calls, src.Calls...)
+	for k, v := range src.LetAtCall {
+		if dst.LetAtCall == nil {
+			dst.LetAtCall = map[string][]Clause{}
+		}
+		dst.LetAtCall[k] = append(dst.LetAtCall[k], v...)
+	}
 	for k, v := range src.AtCall {
 		if dst.AtCall == nil {
 			dst.AtCall = map[string][]Clause{}
